@@ -434,6 +434,164 @@ class Glue:
             rec[1] += 1
         return None
 
+    # -- literals with symbolic exponent digits (tier 1b / 5c-b) ------------------
+    def split_expo(self, cells, st):
+        """(mantissa bytes (concrete), exponent sign (+1/-1), exponent digit cells) of a literal whose mantissa and
+        skeleton are determined and whose exponent digits may be free"""
+        out = []
+        DIG = sum(1 << d for d in range(48, 58))
+        for c in cells:
+            if c.__class__ is Term:
+                m = self.known(st, c)
+                if m and m & (m - 1) == 0:
+                    out.append(m.bit_length() - 1)
+                elif m & ~DIG == 0:
+                    out.append(c)
+                else:
+                    raise NotImplementedError('literal byte not determined by the path')
+            else:
+                out.append(c)
+        k = None
+        for i, c in enumerate(out):
+            if c.__class__ is not Term and c in (ord('e'), ord('E')):
+                k = i
+                break
+        if k is None or any(c.__class__ is Term for c in out[:k]):
+            raise NotImplementedError('exponent template needs a concrete mantissa and an exponent part')
+        mant = bytes(out[:k])
+        j = k + 1
+        sg = 1
+        if j < len(out) and out[j] in (ord('+'), ord('-')):
+            sg = -1 if out[j] == ord('-') else 1
+            j += 1
+        return mant, sg, out[j:]
+
+    def _expo_sum(self, sg, ecells):
+        lia = self.lia
+        E = z3.IntVal(0)
+        side = []
+        for c in ecells:
+            if c.__class__ is Term:
+                e_, _, _, sd = lia.conv(c)
+                side += list(sd)
+                E = E * 10 + (e_ - 48)
+            else:
+                E = E * 10 + (c - 48)
+        return sg * E, side
+
+    @staticmethod
+    def _mant_value(mant):
+        """(numerator, fraction digits, negative) of the exponent-less mantissa literal"""
+        neg = mant[:1] == b'-'
+        body = mant[1:] if neg else mant
+        ip, _, fp_ = body.partition(b'.')
+        return int(ip + fp_ or b'0'), len(fp_), neg
+
+    def _signed(self, t):
+        lia = self.lia
+        if t.__class__ is Term:
+            e_, _, _, sd = lia.conv(t)
+            return z3.If(e_ >= 2 ** 63, e_ - 2 ** 64, e_), list(sd)
+        from .terms import sgn
+        return z3.IntVal(sgn(t, 64)), []
+
+    def _finish_obligation(self, ex, st, ins, aid, rec, r):
+        self.ses.obligations = getattr(self.ses, 'obligations', 0) + 1
+        if r == 'unsat':
+            rec[0] += 1
+            return None
+        badst = st.fork()
+        badst.status = 'assertfail'
+        badst.result = (aid, ins['pos'])
+        if r == 'sat':
+            assign = self.lia.model_assign()
+            for v in ex.store.vars:
+                if v.kind == 'byte':
+                    badst.pc = ex.mdd.and_byte(badst.pc, v.order, 1 << (assign.get(v.idx, 0) & 255))
+        else:
+            badst.inexact = True
+        if badst.pc is not None:
+            ex.finish(badst)
+            rec[1] += 1
+        return None
+
+    def h_assert_scan_expo(self, ex, st, fr, ins, args):
+        """the scanner's exponent for EVERY exponent digit string of the template: with c the (concrete) offset that
+        makes mant*10^c the exponent-less mantissa, exp = s*E + c, or both lie beyond the fast tiers' table on the same side"""
+        from .terms import sgn
+        lit, mant, exp, neg, trunc, idv = args
+        aid = bytes(idv[1]).decode()
+        rec = self.ses.asserts.setdefault(aid, [0, 0])
+        if mant.__class__ is Term or trunc.__class__ is Term or neg.__class__ is Term:
+            raise NotImplementedError('exponent template with undetermined mantissa')
+        mbytes, sg, ecells = self.split_expo(tuple(ex.slice_cells(st, lit)), st)
+        num, frac, vneg = self._mant_value(mbytes)
+        if bool(neg) != vneg:
+            return self._finish_obligation(ex, st, ins, aid, rec, 'sat')
+        if mant == 0:
+            # nothing is required of the exponent of a zero mantissa (0*10^e = 0); with trunc the tiers re-check and fall back
+            if num != 0 and not trunc:
+                return self._finish_obligation(ex, st, ins, aid, rec, 'sat')
+            rec[0] += 1
+            return None
+        # c: mant*10^c == num*10^-frac (or brackets it from below when truncated)
+        c0 = None
+        for c in range(-frac - 2, len(mbytes) + 2):
+            a, b = mant * 10 ** max(c + frac, 0), num * 10 ** max(-(c + frac), 0)
+            a1 = (mant + 1) * 10 ** max(c + frac, 0)
+            if (a == b and not trunc) or (trunc and a <= b < a1):
+                c0 = c
+                break
+        if c0 is None:
+            return self._finish_obligation(ex, st, ins, aid, rec, 'sat')
+        E, side = self._expo_sum(sg, ecells)
+        es, side2 = self._signed(exp)
+        want = E + c0
+        good = z3.Or(es == want, z3.And(es > 347, want > 347), z3.And(es < -348, want < -348))
+        r = self.lia.check(st.pc, st.extras, (), raw=list(st.raw) + side + side2 + [z3.Not(good)])
+        return self._finish_obligation(ex, st, ins, aid, rec, r)
+
+    def h_assert_set_expo(self, ex, st, fr, ins, args):
+        """decimal.set's decimal point for EVERY exponent digit string of the template: dp = s*E + c with c the position
+        of the point in the exponent-less mantissa, or both beyond floatBits' overflow (> 310) / underflow (< -330) exits"""
+        from .terms import sgn
+        lit, dptr, idv = args
+        aid = bytes(idv[1]).decode()
+        rec = self.ses.asserts.setdefault(aid, [0, 0])
+        mbytes, sg, ecells = self.split_expo(tuple(ex.slice_cells(st, lit)), st)
+        num, frac, vneg = self._mant_value(mbytes)
+        v = ex.load(st, dptr)
+        d, nd, dp, neg, trunc = v[1]
+        if nd.__class__ is Term or trunc.__class__ is Term or neg.__class__ is Term:
+            raise NotImplementedError('exponent template with undetermined digits')
+        nd = sgn(nd, 64)
+        if bool(neg) != vneg:
+            return self._finish_obligation(ex, st, ins, aid, rec, 'sat')
+        digs = [d[1][i] for i in range(nd)]
+        if any(x.__class__ is Term for x in digs):
+            raise NotImplementedError('exponent template with symbolic kept digits')
+        if nd == 0:
+            r = 'unsat' if num == 0 else 'sat'
+            return self._finish_obligation(ex, st, ins, aid, rec, r)
+        D = int(bytes(digs))
+        c0 = None
+        for c in range(-frac - 2, len(mbytes) + 2):
+            # D * 10^(c-nd) == num * 10^-frac   (or brackets it when truncated)
+            sh = c - nd + frac
+            a, b = D * 10 ** max(sh, 0), num * 10 ** max(-sh, 0)
+            a1 = (D + 1) * 10 ** max(sh, 0)
+            if (a == b and not trunc) or (trunc and a < b < a1):
+                c0 = c
+                break
+        if c0 is None or digs[0] == 48:
+            return self._finish_obligation(ex, st, ins, aid, rec, 'sat')
+        E, side = self._expo_sum(sg, ecells)
+        ds, side2 = self._signed(dp)
+        want = E + c0
+        good = z3.Or(ds == want, z3.And(ds > 310, want > 310), z3.And(ds < -330, want < -330))
+        r = self.lia.check(st.pc, st.extras, (), raw=list(st.raw) + side + side2 + [z3.Not(good)])
+        return self._finish_obligation(ex, st, ins, aid, rec, r)
+
     def h_assert_halfway(self, ex, st, fr, ins, args):
         """tier 5f: the digit buffer (n digits) holds every exact halfway point of the binade with ulp 2^e2:
         the midpoint (2M+1)*2^(e2-1) has at most n significant decimal digits for every M the path allows.
